@@ -129,6 +129,17 @@ func (in *Interp) analysedSynthetic(fn *ssa.Function) bool {
 	if fn.Pkg != nil {
 		return in.Analysed[fn.Pkg]
 	}
+	// bound method wrappers: the receiver is the only free variable
+	if strings.HasSuffix(fn.Name(), "$bound") && len(fn.FreeVars) == 1 {
+		t := fn.FreeVars[0].Type()
+		if p, ok := t.(*types.Pointer); ok {
+			t = p.Elem()
+		}
+		if n, ok := t.(*types.Named); ok && n.Obj().Pkg() != nil {
+			_, ok := in.Pkgs[n.Obj().Pkg().Path()]
+			return ok
+		}
+	}
 	return false
 }
 
